@@ -210,6 +210,15 @@ def run(P, chk, tier):
                   "copied; readtxtbin consumes a length byte and exactly that many bytes, refusing a string that "
                   "overruns the record", "E2", floor=2)
     txt_tiling(P, E, chk, r5)
+    # ------------------------------------------------------------------ R6
+    r6 = chk.rule("C09.R6", "codec round trip and capacity (shared with C07)",
+                  "what the client extracts is the decoder applied to what the server's encoder emitted into the room it was "
+                  "given: for all four codecs decode(encode(x)) = x on every bit, every exit of the encoder reports exactly the "
+                  "bytes it placed, and no character is stored beyond the stated capacity (the obligations of C07.R1-R5, "
+                  "re-evaluated here)", "E4 + E2 + E7", floor=200)
+    from . import c07
+    for spec in c07.CODECS:
+        c07.run_codec(P, chk, (r6,) * 6, spec, {})
     # ------------------------------------------------------------------ R7
     r7 = chk.rule("C09.R7", "hostname reserve",
                   "with space = MIN(255, buflen) - R - S; space -= space / D the emitted name fits MIN(255, buflen) "
